@@ -7,7 +7,7 @@
     [oveqb]: same class, atoms identical, up to dict / ATTRIBUTE / set order.  The guards are those of
     C08_sub_inverts_default asked of the encodings ([korder] on the encodings also asks two instances of one
     class to list their common attributes in the same order) and 0 < threshold_to_diff_deeper. *)
-From DD Require Obj.ObjValue Obj.ObjModel Obj.ObjRoundtrip Obj.ObjReverse.
+From DD Require Obj.ObjValue Obj.ObjModel Obj.ObjFacts Obj.ObjRoundtrip Obj.ObjReverse Obj.ObjExamples.
 
 Theorem C08_objects_one_way_refuses_sub :
   forall hatom udiff ops c conv always ro ao (t1 t2 base : Obj.ObjValue.ovalue),
@@ -68,3 +68,24 @@ Example C08_objects_guards_satisfiable :
                /\ Obj.ObjRoundtrip.oveqb t2' Obj.ObjExamples.ox_t2 = true).
 Proof. exact (conj Obj.ObjReverse.oxb_guards Obj.ObjReverse.oxb_result). Qed.
 Print Assumptions C08_objects_guards_satisfiable.
+
+(* a mismatched base is reported: the bidirectional delta of an object diff applied to a base whose ENCODING differs
+   from t1's at the (encoded) location of a values_changed / type_changes entry logs an error.  The harness corrupts
+   scalar attribute values / items, whose encoded location is the attribute / item itself. *)
+Theorem C08_objects_detects_corruption_of_diff :
+  forall hatom udiff ops c conv ro ao always (t1 t2 base : Obj.ObjValue.ovalue),
+    (forall p xs ys, forallb is_atom xs = true -> forallb is_atom ys = true -> valid_ops xs ys (ops p xs ys)) ->
+    0 < thr_num c -> thr_num c <= thr_den c ->
+    Obj.ObjValue.owf t1 = true -> Obj.ObjValue.owf t2 = true -> keys_nonneg (Obj.ObjValue.enc t2) = true ->
+    forall e, In e (fst (run_diff hatom udiff ops Obj.ObjModel.nopaths Obj.ObjModel.nopaths c (Obj.ObjValue.enc t1) (Obj.ObjValue.enc t2))) ->
+      ekind e = KValue \/ ekind e = KType ->
+      differs_at (Obj.ObjValue.enc t1) (Obj.ObjValue.enc base) (ep1 e) ->
+      0 < snd (Obj.ObjModel.oapply conv ro ao (Obj.ObjModel.odelta hatom udiff ops c conv true always t1 t2) base).
+Proof.
+  intros hatom udiff ops c conv ro ao always t1 t2 base Hops Hpos Hthr W1 W2 N2 e He K D.
+  rewrite (Obj.ObjRoundtrip.odelta_eq hatom udiff ops c conv true always t1 t2 Hpos W1 W2).
+  unfold Obj.ObjModel.oapply. cbn [snd].
+  exact (C08_detects_corruption_of_diff_all_valid hatom udiff ops Obj.ObjModel.nopaths Obj.ObjModel.nopaths c conv ro ao always ops
+           (Obj.ObjValue.enc t1) (Obj.ObjValue.enc t2) Hops Hthr (Obj.ObjFacts.enc_wf t1 W1) (Obj.ObjFacts.enc_wf t2 W2) N2 e (Obj.ObjValue.enc base) He K D).
+Qed.
+Print Assumptions C08_objects_detects_corruption_of_diff.
